@@ -86,7 +86,7 @@ PROPS = {
         "assumptions": ["journals with two prices for one commodity pair on one day are not generated (excluded by the property)"],
     },
     "C03": {
-        "lean": ["Knut.Properties.C03", "Knut.Properties.C03Bound", "Knut.Properties.C03Bridge"],
+        "lean": ["Knut.Properties.C03", "Knut.Properties.C03Bound", "Knut.Properties.C03Bridge", "Knut.Properties.C03Window"],
         "level": "proof",
         "claim": "PARTIAL proof + full correspondence + exact monitor. Proved for all journals/days on the model of ComputePrices/Valuate: C03_flow_valued_at_booking_day (every booking is "
                  "valued as quantity if in V, else Truncate8(quantity x price of its own day)), C03_missing_price_is_error / C03_missing_price_fails_day (a needed absent price fails the day: no number), "
@@ -378,9 +378,9 @@ PROPS = {
         "timeout": {"quick": 900, "thorough": 3000},
     },
     "C15": {
-        "lean": ["Knut.Properties.C15"],
+        "lean": ["Knut.Properties.C15", "Knut.Properties.C15Parse"],
         "level": "proof",
-        "claim": "PARTIAL proof + full correspondence. Lean theorems over a model of lib/syntax/bayes (Update/update/tokenize/Infer/inferAccount/scoreCandidate, count tables as "
+        "claim": "Proof (for every score function: the float evaluation is a parameter, see note) + full correspondence. Lean theorems over a model of lib/syntax/bayes (Update/update/tokenize/Infer/inferAccount/scoreCandidate, count tables as "
                  "association lists) and of inferRunner.execute (train on every reachable file, Infer on the target tree, syntax.FormatFile), proved for EVERY score function and comparison "
                  "(the float log-sum is an abstract parameter) and all training/target journals and placeholder names: C15_only_placeholder / C15_only_bookings (only booking account fields "
                  "whose text is the placeholder change), C15_candidate_from_training (each replacement is a credit/debit account of a non-macro, non-placeholder training booking), "
@@ -388,8 +388,13 @@ PROPS = {
                  "C15_viewsOK (the monitor predicate holds of the model), C15_deterministic / _files / _booking (any permutation of the training transactions resp. files gives the same output), "
                  "C15_token_walk_irrelevant + C15_equiv_same_choice + C15_tables_are_counts (map iteration orders do not matter: the tables are counts over the multiset of update calls and the "
                  "candidates are visited sorted), C15_output_is_format_modulo_accounts / C15_output_shape (output = formatter run on the edited fields: same gaps, fields related by viewsOK, padding "
-                 "implied by the new accounts), C15_no_new_panic. PARTIAL: 'the result parses' is proved only as C15_output_parses_partial (every written account text is the Extract() of a non-macro "
-                 "account node of a parsed training file); the re-parse itself is decided on every run on the REAL output (real parser and parser model). Tie: bayes.NewModel/Update/Infer + "
+                 "implied by the new accounts), C15_no_new_panic. Properties/C15Parse.lean closes the text-level clause with the parser model of C07 and the print-then-parse lemmas of C08 run on the "
+                 "EDITED fields: C15_output_parses (whenever the command writes a text, for all training files, targets and placeholders, that text parses; its directives have exactly the fields "
+                 "of the target's directives with Infer applied; the text between directives is the target's gap by gap; it is a fixed point of format), "
+                 "C15_output_is_formatted_input_modulo_accounts (knut format of the target succeeds and the monitor predicate inferOK holds between it and the output: both parse, fields related by "
+                 "viewsOK, identical gaps), C15_idempotent_after (infer run again on its own output with the same training writes the same text, whether or not a placeholder is left, and so does "
+                 "format), C15_infer_idempotent, C15_written_account_is_training_node (every written account text is the Extract() of a non-macro account node of a parsed training file). No _partial "
+                 "theorem is left. Tie: bayes.NewModel/Update/Infer + "
                  "syntax.FormatFile in-process and `knut infer [-a] -t TRAINING TARGET` / `-i` as subprocess are compared byte for byte with the model instantiated with the exact rational score "
                  "(product of count ratios); the real count tables (read by reflection) are compared with the model's; the Lean predicate inferOK is evaluated on the real output against the real "
                  "`knut format` of the target; repeated runs under perturbed schedules must be identical.",
